@@ -3,7 +3,7 @@
     ("cacheable under the cluster name" is a flag of discovery.Result that the model does not carry; the check
     asserts it on the implementation's results through [res_spec].) *)
 From Xds Require Import Model.Base Model.Fqdn Model.Proto Model.Decode Model.DecodeCheck Model.Pick Model.Route Model.Mw Model.Sys Model.SysCheck.
-From Xds Require Import Proofs.MwProofs Proofs.SweepProofs Proofs.ResolveProofs.
+From Xds Require Import Model.FullView Proofs.MwProofs Proofs.SweepProofs Proofs.ResolveProofs Proofs.FullProofs.
 Open Scope string_scope.
 
 (** A successful resolution returns exactly the endpoints of the cluster's load assignment - the inline one if
@@ -65,6 +65,13 @@ Theorem C10_resolution_of_history : forall c o pre d, forallb hist_op pre = true
   o_lookup (snd (step c o (final c o pre) (OResolve d))) = Some (LResolved (expected_resolution c o pre d)).
 Proof. exact resolution_of_history. Qed.
 Print Assumptions C10_resolution_of_history.
+
+(** The same after ANY history whatsoever - eviction sweeps, clock ticks and back-dating included - with the complete
+    per-key folds of Model/FullView.v. *)
+Theorem C10_resolution_of_any_history : forall c o pre d,
+  o_lookup (snd (step c o (final c o pre) (OResolve d))) = Some (LResolved (expected_resolution_full c o pre d)).
+Proof. exact resolution_of_any_history. Qed.
+Print Assumptions C10_resolution_of_any_history.
 
 Theorem C10_cluster_is_fold : forall c o pre d, forallb hist_op pre = true ->
   aget d (tget TCl (s_cache (final c o pre))) = kv_val (cl_view c o pre d).
